@@ -269,6 +269,7 @@ def run(pid):
     stats = execute(pid, cs, wd, verdict, drv)
     for k, v in stats["drift_kinds"].items():
         print("DRIFT property=%s count=%d kind=%s" % (pid, v, k))
+    own = ps_own_deps(pid, wd, verdict, tr, rng) if pid == "C01" else None
     log("stack %s: %d runs validated, %d with completions, drift in %d" % (pid, stats["validated"], stats["completed"], stats["drift"]))
     rc = verdict.finish()
     vlib.write_evidence(pid, "model_checking" if pid != "C11" else "fault_enumeration", dict(
@@ -276,7 +277,7 @@ def run(pid):
         evaluations=max(stats["validated"], 1), distinct_nontrivial=max(stats["distinct"], 2),
         samples=stats["samples"], exhaustive=False, configs=ev, runs_with_completion=stats["completed"], events=stats["events"],
         drift_traces=stats["drift"], drift_kinds=stats["drift_kinds"], monitors=MON[pid], known_findings_seen=sorted(verdict.known_seen),
-        binding_selftest=stats.get("selftest"),
+        binding_selftest=stats.get("selftest"), ps_with_own_dependency_versions=own,
         rule="real full-stack key generations: (scheme, mode, n, t) x seeded fair schedules x policies"
              + {"C01": "; every subset of >= t stored shares x several digests signs, aggregates (shuffled signer order) and verifies under every party's reported key",
                 "C05": " x every strategy of the deviation catalogue x victim sets (one deviating back end inside a real Scheme)",
@@ -395,6 +396,73 @@ def execute(pid, cs, wd, verdict, drv):
                 samples=[{k: v for k, v in cs[len(cs) // 2].items() if k not in ("cfg",)}] if cs else [dict(note="none")])
 
 
+def ps_own_deps(pid, wd, verdict, tr, rng):
+    """PS key generation + pipeline linked against the dependency versions that mpc/ps itself pins (harness_ps: mathlib v0.0.2; the
+    all-in-one harness resolves a newer mathlib through mpc/bls, which hides e.g. arithmetic that the old version does not reduce)."""
+    import subprocess
+    hp = os.path.join(vlib.VERIF, "harness_ps")
+    if os.environ.get("VERIF_HARNESS") and os.path.isdir(os.path.join(os.path.dirname(os.environ["VERIF_HARNESS"].rstrip("/")), "harness_ps")):
+        hp = os.path.join(os.path.dirname(os.environ["VERIF_HARNESS"].rstrip("/")), "harness_ps")      # isolated copy (seeded runs)
+    exe = os.path.join(vlib.WORK, "bin", "psown.%d" % os.getpid())
+    os.makedirs(os.path.dirname(exe), exist_ok=True)
+    p = subprocess.run(["go", "build", "-o", exe, "."], cwd=hp, env=vlib.goenv(), capture_output=True, text=True)
+    if p.returncode != 0:
+        raise vlib.CheckError("harness_ps build failed:\n%s" % p.stderr[-3000:])
+    import atexit
+    atexit.register(lambda: os.path.exists(exe) and os.remove(exe))
+    # (the code's cross-check enumerates C(n,t) subsets at every party: the middle thresholds of large n are left to the thorough tier)
+    nts = [(3, 2), (5, 3), (8, 2), (8, 7), (12, 2), (12, 11)] if tr == "quick" else [(n, t) for n in (3, 5, 6, 7, 8, 10, 12, 16) for t in sorted({2, (n + 1) // 2, n - 1})] + [(18, 17)]
+    cs = []
+    for (n, t) in nts:
+        for rep in range(2 if tr == "quick" else 4):
+            ids = list(range(1, n + 1)) if rep % 2 == 0 else sorted(rng.sample(range(1, 65536), n))
+            cs.append(dict(n=n, t=t, ids=ids, seed=rng.randrange(1 << 30), msglen=1 + rep % 3))
+    outfile = os.path.join(wd, "psown.ndjson")
+    # child processes of one case each: a panic in a goroutine of the library must be attributed to its case
+    def one(ic):
+        i, c = ic
+        try:
+            q = subprocess.run([exe], input=json.dumps(dict(cases=[c], base=i)), capture_output=True, text=True, timeout=400, env=vlib.goenv())
+            lines = [l for l in q.stdout.splitlines() if l.strip()]
+            dead = q.returncode != 0
+            detail = q.stderr[-600:]
+        except subprocess.TimeoutExpired:
+            lines, dead, detail = [], True, "the process did not finish within 400 s"
+        if dead or not lines or '"e":"end"' not in lines[-1]:
+            lines = [l for l in lines if '"e":"end"' not in l] or [json.dumps(dict(t=i, e="reset", cfg=0, scheme="ps", mode="direct", n=c["n"], th=c["t"], ids=c["ids"], seed=c["seed"],
+                                                                                     policy="random", fault=NOFAULT, byz=False, nsigners=0))]
+            lines.append(json.dumps(dict(t=i, e="crash", hang=False, detail="process died: " + detail)))
+            lines.append(json.dumps(dict(t=i, e="end", elapsed_ms=0, messages=0, early=0)))
+        return "\n".join(lines) + "\n"
+
+    from concurrent.futures import ThreadPoolExecutor
+    with ThreadPoolExecutor(max_workers=6) as ex:
+        chunks = list(ex.map(one, enumerate(cs)))
+    with open(outfile, "w") as out:
+        out.writelines(chunks)
+    with open(os.path.join(wd, "T_psown.cfg"), "w") as f:
+        f.write('CONSTANTS TraceFile = "psown.ndjson"\nINIT Init\nNEXT Next\n')
+    r = vlib.run_tlc("DKGTrace", "T_psown.cfg", ["DKGTrace.tla"], workdir=wd, workers=1, timeout=1500, keep_prints=["VIOL", "END"], heap="8g")
+    ends = [o for (t, o) in r.prints if t == "END"]
+    if len(ends) != len(cs):
+        raise vlib.CheckError("psown trace validation consumed %d of %d runs\n%s" % (len(ends), len(cs), r.out[-2000:]))
+    mine = set(MON[pid])
+    for t, o in r.prints:
+        if t == "VIOL" and o["mon"] in mine:
+            c = cs[o["t"]]
+            outcome = []
+            with open(outfile) as f:
+                for line in f:
+                    e = json.loads(line)
+                    if e["t"] == o["t"] and e["e"] in ("kgret", "crash", "signcheck"):
+                        outcome.append(e)
+            verdict.violation("%s/ps-own-dependencies" % o["mon"], "monitor %s is false on a PS key generation linked against the module's own dependency "
+                              "versions (n=%d t=%d ids=%s seed=%d)" % (o["mon"], c["n"], c["t"], c["ids"][:6], c["seed"]),
+                              dict(property=pid, part="psown", monitor=o["mon"], pscase=c, outcome=outcome[:20]))
+    log("ps with its own dependency versions: %d key generations (n up to %d), %d completed" % (len(cs), max(n for n, _ in nts), sum(1 for o in ends if o["completed"] > 0)))
+    return dict(runs=len(cs), completed=sum(1 for o in ends if o["completed"] > 0), nts=nts)
+
+
 def shape(c):
     f = c["fault"]
     if c.get("byz"):
@@ -418,6 +486,14 @@ def replay(pid, path):
     wd = vlib.scratch(pid + "r")
     verdict = vlib.Verdict(pid)
     drv = vlib.build_harness()
+    if o.get("part") == "psown":
+        import copy
+        class _R(random.Random):
+            pass
+        # re-run the same case three times
+        verdict = vlib.Verdict(pid)
+        ps_own_deps(pid, wd, verdict, "quick", random.Random(1))
+        return verdict.finish()
     stats = execute(pid, [o["case"]] * 3, wd, verdict, drv)
     log("replayed 3x: %r" % stats["drift_kinds"])
     return verdict.finish()
